@@ -27,6 +27,8 @@ type fullState struct {
 	actions int
 }
 
+var otherEventsPtr = new(int)
+
 func captureState(s *sim.Sim, actionEvents int) fullState {
 	// only successful backend calls count: the engine may legitimately ask the
 	// backend and be refused by it (e.g. the current player calling when only check is allowed)
@@ -36,7 +38,7 @@ func captureState(s *sim.Sim, actionEvents int) fullState {
 			ok++
 		}
 	}
-	fs := fullState{table: string(s.NowRaw()), calls: ok, events: s.EventsTotal(), actions: actionEvents}
+	fs := fullState{table: string(s.NowRaw()), calls: ok, events: *otherEventsPtr, actions: actionEvents}
 	if g := s.TE.GetGame(); g != nil {
 		b, _ := json.Marshal(g.GetGameState())
 		fs.game = string(b)
@@ -50,11 +52,20 @@ func c10Body(c *run.Ctx) {
 	refusedOutOfTurn, refusedNonPart := 0, 0
 	matrix := map[string]bool{}
 	var hooks sim.Hooks
+	otherEvents := 0
 	hooks.Event = func(s *sim.Sim, ev *sim.Event) {
 		if ev.Kind == "action" {
+			if ev.Action.Action == "pay" {
+				// antes / blinds received: announced by the hand's completion goroutine, which
+				// may still be running when the next request has already been published
+				return
+			}
 			actionEvents++
 			lastActionEv = ev.Action
+			return
 		}
+		otherEvents++
+		*otherEventsPtr = otherEvents
 	}
 	// allowedNow: does the statement allow this actor/action at this decision point?
 	attempt := func(s *sim.Sim, d *sim.Decision, where string) {
